@@ -1,7 +1,8 @@
 (* C17 - runtime property: statements over the transition-system models (Mux/Pipe.v, Mux/Accept.v); see also the sibling files. *)
 From Coq Require Import List NArith ZArith Bool Arith.
 From SA Require Import Base.Tok Gen.Shapes Mux.Lts Mux.Pipe Mux.Accept Mux.Runtime Mux.Runtime_proofs.
-From SA Require Gen.Shapes2.
+From SA Require Gen.Shapes2 Gen.CloseShape.
+From SA Require Import Queue.Queues Queue.Close Queue.Close_proofs.
 From Coq Require Import String.
 Import ListNotations.
 Local Open Scope nat_scope.
@@ -30,3 +31,187 @@ Theorem c17_close_glue_facts :
   Gen.Shapes2.client_handshake_deadline_cleared = "SetDeadline(time.Time{})"%string.
 Proof. repeat split; reflexivity. Qed.
 Print Assumptions c17_close_glue_facts.
+
+(* ================================================================================================================================
+   The close / end-of-stream protocol of the DNS tunnel connection (Queue/Close.v: the in-queue with its parked reader, the Read / Write /
+   Close wrappers of both ends, closeConnection, the close request, the expiry sweep, SendAndReceive and the poll goroutine).
+   `reach c`: c is the state after ANY sequence of operations from the initial state, with or without a completed handshake, over ANY
+   script of path fates and server-side events. The shape switches of the model are read from the source on every run. *)
+
+Theorem c17_dns_code_shape : code_shape = intended.
+Proof. exact code_shape_intended. Qed.
+
+(* Nothing is lost, duplicated or reordered by closing: on either end, in every reachable state, what Reads have returned so far followed by
+   what is still buffered is exactly what was appended (so what has been returned is a prefix of what was appended). *)
+Theorem c17_dns_no_loss : forall hs fs ops,
+  let c := fst (run code_shape (init_conn hs fs) ops) in
+  q_app (c_in c) = (q_ret (c_in c) ++ q_buf (c_in c))%list /\ q_app (s_in c) = (q_ret (s_in c) ++ q_buf (s_in c))%list.
+Proof. intros hs fs ops. rewrite code_shape_intended. apply conn_no_loss. exists hs, fs, ops. reflexivity. Qed.
+
+(* A Read reports end-of-stream only on a closed end (client: the connection was closed, by the application or by the poll goroutine;
+   server: the session is no longer live - closed by the application, by the client's request, or expired) and only after everything
+   that was ever appended has been returned; it changes nothing. *)
+Theorem c17_dns_eof_means_all_delivered_client : forall c n, reach c -> snd (c_read code_shape c n) = REof ->
+  c_comm c = true /\ q_ret (c_in c) = q_app (c_in c) /\ fst (c_read code_shape c n) = c.
+Proof. rewrite code_shape_intended. exact c_read_eof. Qed.
+Theorem c17_dns_eof_means_all_delivered_server : forall c n, reach c -> snd (s_read code_shape c n) = REof ->
+  live (s_slot c) = false /\ q_ret (s_in c) = q_app (s_in c) /\ fst (s_read code_shape c n) = c.
+Proof. rewrite code_shape_intended. exact s_read_eof. Qed.
+
+(* The same for a reader that was parked and is released with end-of-stream by some operation (any operation, including one round of the
+   poll goroutine with all it entails): when that operation is over, the reader's end is closed and nothing appended is outstanding. *)
+Theorem c17_dns_released_eof_means_all_delivered : forall c o, reach c ->
+  (In (OWoke true REof) (snd (step code_shape c o)) -> cli_done (fst (step code_shape c o))) /\
+  (In (OWoke false REof) (snd (step code_shape c o)) -> srv_done (fst (step code_shape c o))).
+Proof. rewrite code_shape_intended. exact step_released_eof. Qed.
+
+(* Once an end is closed no reader is parked on it and no Read parks any more. *)
+Theorem c17_dns_closed_never_blocks_client : forall c, reach c -> c_comm c = true ->
+  q_parked (c_in c) = None /\ forall n, snd (c_read code_shape c n) <> RBlock /\ snd (c_read code_shape c n) <> RBusy.
+Proof. rewrite code_shape_intended. exact client_closed_released. Qed.
+Theorem c17_dns_closed_never_blocks_server : forall c, reach c -> live (s_slot c) = false ->
+  q_parked (s_in c) = None /\ forall n, snd (s_read code_shape c n) <> RBlock /\ snd (s_read code_shape c n) <> RBusy.
+Proof. rewrite code_shape_intended. exact server_closed_released. Qed.
+Theorem c17_dns_closed_flag_means_not_live : forall c, reach c -> s_closed c = true -> live (s_slot c) = false.
+Proof. exact server_closed_flag_not_live. Qed.
+(* ... and closed stays closed, whatever follows (any shape). *)
+Theorem c17_dns_closed_is_final : forall sh ops c, c_comm c = true -> c_comm (fst (run sh c ops)) = true.
+Proof. exact run_comm_stable. Qed.
+
+(* Drain: on a closed end, Reads with a buffer of n > 0 octets return the buffered octets in pieces of n (the last one shorter), none empty,
+   and then end-of-stream: ceil(buffered / n) + 1 Reads, after which everything ever appended has been returned. *)
+Theorem c17_dns_drain_client : forall c n, reach c -> c_comm c = true -> 0 < n ->
+  let buf := q_buf (c_in c) in
+  let pieces := chunks (List.length buf) n buf in
+  List.length pieces = ceil_div (List.length buf) n /\ List.concat pieces = buf /\ (forall p, In p pieces -> p <> []) /\
+  snd (c_reads code_shape c n (ceil_div (List.length buf) n + 1)) = (List.map RBytes pieces ++ [REof])%list /\
+  q_ret (c_in (fst (c_reads code_shape c n (ceil_div (List.length buf) n + 1)))) = q_app (c_in c).
+Proof. rewrite code_shape_intended. exact client_drain. Qed.
+Theorem c17_dns_drain_server : forall c n, reach c -> live (s_slot c) = false -> 0 < n ->
+  let buf := q_buf (s_in c) in
+  let pieces := chunks (List.length buf) n buf in
+  List.length pieces = ceil_div (List.length buf) n /\ List.concat pieces = buf /\ (forall p, In p pieces -> p <> []) /\
+  snd (s_reads code_shape c n (ceil_div (List.length buf) n + 1)) = (List.map RBytes pieces ++ [REof])%list /\
+  q_ret (s_in (fst (s_reads code_shape c n (ceil_div (List.length buf) n + 1)))) = q_app (s_in c).
+Proof. rewrite code_shape_intended. exact server_drain. Qed.
+
+(* The server end's close reaches a client that is only polling: a round of the poll goroutine against a retired session over a path
+   that delivers gets BADCONN and closes the client end (by the theorems above its reader then gets the buffered octets and end-of-stream). *)
+Theorem c17_dns_badconn_closes_client : forall c up, c_comm c = false -> c_hs c = true -> s_slot c = Retired ->
+  (c_fates c = [] \/ exists d r, c_fates c = FOk d :: r) ->
+  c_comm (fst (cli_poll code_shape c up)) = true.
+Proof. rewrite code_shape_intended. exact poll_badconn_closes. Qed.
+
+(* The give-up rule: the same error value (any but BADCONN) at every round makes the goroutine close this end at the latest at round
+   poll_give_up_above + 2 = 7 (the first occurrence only sets lastErr; errCount then has to exceed 5), from any counter state. *)
+Theorem c17_dns_same_error_gives_up : forall e cnt last, ev_eqb e EBadConn = false -> react_n cnt last e (give_up + 2) = true.
+Proof. intros e cnt last H. apply react_gives_up, H. Qed.
+Example c17_dns_six_equal_errors_are_not_enough : react_n 0 None ETimeout 6 = false /\ react_n 0 None ETimeout 7 = true.
+Proof. split; reflexivity. Qed.
+(* ... so a client whose session the server has forgotten altogether (BADUSER at every round) closes its end within 7 rounds. *)
+Theorem c17_dns_forgotten_session_closes_client : forall c, forgotten_idle c -> c_comm (fst (idle_polls code_shape (give_up + 2) c)) = true.
+Proof. rewrite code_shape_intended. exact forgotten_session_closes_client. Qed.
+Example c17_dns_forgotten_nonvacuous :
+  forgotten_idle (fst (run code_shape (init_conn true []) [OSClose; OForget])) /\ reach (fst (run intended (init_conn true []) [OSClose; OForget])).
+Proof. split; [repeat split|exists true, [], [OSClose; OForget]; reflexivity]. Qed.
+
+(* Non-vacuity of `reach` with both ends closed and data outstanding: the client wrote nothing; the server received 5 octets, was closed
+   by the client's request, and its reader drains 2 + 2 + 1 octets and then sees end-of-stream. *)
+Example c17_dns_drain_example :
+  let c := fst (run code_shape (init_conn true [FOk []; FOk []]) [OSArrive [1; 2; 3; 4; 5]%N; OCClose]) in
+  c_comm c = true /\ live (s_slot c) = false /\
+  snd (s_reads code_shape c 2 4) = [RBytes [1; 2]%N; RBytes [3; 4]%N; RBytes [5]%N; REof].
+Proof. vm_compute. repeat split. Qed.
+
+(* -- the other shapes, refuted *)
+(* "end-of-stream as soon as the end is closed" (Read without the HasData test), on either end: appended octets are never delivered. *)
+Theorem c17_dns_eof_when_closed_server_refuted :
+  let '(c, os) := run eof_when_closed_server (init_conn false []) [OSArrive [1; 2; 3]%N; OSClose; OSRead 2] in
+  In (ORead false REof) os /\ q_app (s_in c) = [1; 2; 3]%N /\ q_ret (s_in c) = [].
+Proof. exact eof_when_closed_server_loses. Qed.
+Theorem c17_dns_eof_when_closed_client_refuted :
+  let '(c, os) := run eof_when_closed_client (init_conn false []) [OCArrive [1; 2; 3]%N; OCClose; OCRead 2] in
+  In (ORead true REof) os /\ q_app (c_in c) = [1; 2; 3]%N /\ q_ret (c_in c) = [].
+Proof. exact eof_when_closed_client_loses. Qed.
+
+(* SendAndReceive (or Query) wrapping the error values it hands on (errors.WithStack): `err == commands.BadConn` never holds and no two
+   errors are equal, so a client polling a session the server has closed never closes its end, and its reader stays parked: for EVERY
+   number of rounds. *)
+Theorem c17_dns_wrapped_errors_refuted : forall k,
+  let c := fst (idle_polls errors_wrapped k (fst (run errors_wrapped (init_conn true []) [OCRead 4; OSClose]))) in
+  c_comm c = false /\ q_parked (c_in c) = Some 4 /\ s_slot c = Retired.
+Proof. intros k. apply wrapped_polls_for_ever, wrapped_start. Qed.
+
+(* `return errors.WithStack(packet.Err)`: BADCONN still arrives (it comes in an error response), but a run of BADIP answers no longer
+   trips the give-up rule: 7 rounds close the client end with the code as it is, 40 rounds do not with the wrapped variant. *)
+Example c17_dns_wrapped_packet_error_example :
+  c_comm (fst (poll_phase code_shape 50 (init_conn true (repeat FOtherIp 7)))) = true /\
+  c_comm (fst (poll_phase packet_error_wrapped 50 (init_conn true (repeat FOtherIp 40)))) = false /\
+  c_comm (fst (poll_phase packet_error_wrapped 50 (init_conn true [FEv SvClose]))) = true.
+Proof. vm_compute. repeat split. Qed.
+
+(* The buffer of this model is the buffer of the C07 queue model: for a queue with nothing parked out of order that does not remember the
+   expected number, Queues.in_append of the expected packet appends its data and Queues.in_read hands out a prefix. *)
+Theorem c17_dns_buffer_is_c07_buffer : forall (q : inq) (d : bytes) (n : nat),
+  in_future q = [] -> mem_seq (in_next q) (in_acked q) = false ->
+  in_buf (fst (in_append q (Some {| p_seq := in_next q; p_data := d |}))) = (in_buf q ++ d)%list /\
+  snd (in_append q (Some {| p_seq := in_next q; p_data := d |})) = false /\
+  snd (in_read q n) = firstn n (in_buf q) /\ in_buf (fst (in_read q n)) = skipn n (in_buf q).
+Proof. intros q d n F M. destruct (in_append_in_order q d F M). destruct (in_read_is_take q n). auto. Qed.
+
+(* What the model takes from the source text, asserted on every run. *)
+Theorem c17_dns_close_source_facts :
+  Gen.CloseShape.client_read_eof_cond = "dc.Closed() && !dc.in.HasData()"%string /\
+  Gen.CloseShape.client_read_otherwise = "return dc.in.Read(b)"%string /\
+  Gen.CloseShape.server_read_eof_cond = "u.closed && !u.in.HasData()"%string /\
+  Gen.CloseShape.server_read_otherwise = "return u.in.Read(b)"%string /\
+  Gen.CloseShape.client_write_refused_cond = "dc.Closed()"%string /\
+  Gen.CloseShape.server_write_refused_cond = "u.closed"%string /\
+  Gen.CloseShape.client_closed_is = "dc.Communicator.Closed()"%string /\
+  Gen.CloseShape.in_queue_has_data_is = "q.queueHasData"%string /\
+  Gen.CloseShape.client_close_steps = "if !dc.Closed() && dc.Serializer.Upstream.QueryType != nil;dc.in.Close();return dc.Communicator.Close()"%string /\
+  Gen.CloseShape.client_close_closes_in_queue = true /\
+  Gen.CloseShape.client_close_acknowledges_then_asks = true /\
+  Gen.CloseShape.close_connection_closes_in_queue = true /\
+  Gen.CloseShape.user_close_is = "u.closer(u)"%string /\ Gen.CloseShape.user_closer_is = "s.closeConnection"%string /\
+  Gen.CloseShape.sweep_closes_in_queue = true /\
+  Gen.CloseShape.set_options_closed_branch = "v.Closed != nil && *v.Closed == true -> s.closeConnection(user)"%string /\
+  Gen.CloseShape.validate_returns = "u,commands.BadConn;nil,commands.BadUser;user,commands.BadIp;user,nil"%string /\
+  Gen.CloseShape.on_message_retired_answer = "user != nil && userErr == commands.BadConn -> commands.BadConn"%string /\
+  Gen.CloseShape.sar_attempts = 5%N /\
+  Gen.CloseShape.sar_returns_query_errors_unwrapped = true /\ Gen.CloseShape.sar_returns_packet_error_unwrapped = true /\
+  Gen.CloseShape.sar_query = "resp, err := dc.Query(req, timeout); err == smux.ErrTimeout"%string /\
+  Gen.CloseShape.sar_after_answer = "dc.out.UpdateAcked(packet.LastAckedSeqNo);dc.in.Append(packet.Packet)"%string /\
+  Gen.CloseShape.query_returns_error_response_unwrapped = true /\
+  Gen.CloseShape.poll_loop_cond = "!dc.Closed()"%string /\
+  Gen.CloseShape.poll_badconn_test = "err == commands.BadConn"%string /\
+  Gen.CloseShape.poll_badconn_closes = true /\
+  Gen.CloseShape.poll_same_error_test = "lastErr == err"%string /\
+  Gen.CloseShape.poll_give_up_above = 5%N /\ Gen.CloseShape.poll_give_up_closes = true /\
+  Gen.CloseShape.poll_same_error_steps = "errCount++;if errCount > 5"%string /\
+  Gen.CloseShape.poll_other_error_steps = "lastErr = err;errCount = 0"%string /\
+  Gen.CloseShape.poll_success_steps = "lastErr = nil;errCount = 0"%string /\
+  Gen.CloseShape.in_queue_close_steps = "q.queueMutex.Lock();q.closed = true;for;q.queueNotifiers = q.queueNotifiers[0:0];q.queueMutex.Unlock()"%string /\
+  Gen.CloseShape.in_queue_wait_tests = "q.queueHasData -> nil;q.closed -> io.EOF"%string /\
+  Gen.CloseShape.in_queue_read_steps = "err = q.waitNonEmtpyQueue();if err != nil;q.mutex.Lock();defer q.mutex.Unlock();if len(q.in) == 0;copied := copy(p, q.in);q.in = q.in[copied:];q.checkQueueHasAny();return copied, nil"%string.
+Proof. repeat split; reflexivity. Qed.
+
+Print Assumptions c17_dns_code_shape.
+Print Assumptions c17_dns_no_loss.
+Print Assumptions c17_dns_eof_means_all_delivered_client.
+Print Assumptions c17_dns_eof_means_all_delivered_server.
+Print Assumptions c17_dns_released_eof_means_all_delivered.
+Print Assumptions c17_dns_closed_never_blocks_client.
+Print Assumptions c17_dns_closed_never_blocks_server.
+Print Assumptions c17_dns_closed_flag_means_not_live.
+Print Assumptions c17_dns_closed_is_final.
+Print Assumptions c17_dns_drain_client.
+Print Assumptions c17_dns_drain_server.
+Print Assumptions c17_dns_badconn_closes_client.
+Print Assumptions c17_dns_same_error_gives_up.
+Print Assumptions c17_dns_forgotten_session_closes_client.
+Print Assumptions c17_dns_eof_when_closed_server_refuted.
+Print Assumptions c17_dns_eof_when_closed_client_refuted.
+Print Assumptions c17_dns_wrapped_errors_refuted.
+Print Assumptions c17_dns_buffer_is_c07_buffer.
+Print Assumptions c17_dns_close_source_facts.
